@@ -130,6 +130,9 @@ var algLists = [][]string{
 	{"EdDSA"}, {"RS256", "HS256"}, {"HS256", "HS384", "HS512", "none", "RS256", "ES256"}, {"RS256", "ES256", "PS256", "EdDSA", "ES384", "ES512"},
 }
 
+var allowListPool = []string{"RS256", "RS384", "RS512", "PS256", "PS384", "PS512", "ES256", "ES384", "ES512", "EdDSA",
+	"HS256", "HS384", "HS512", "HS256", "none", "none", "HS512", "foo"}
+
 var kidPool = []string{"k1", "k2", "k3", "", "k1", "k", "k11"}
 
 func genKeySet(t *rapid.T, label string, allowed []string, unique bool, maxN int) []KeyEntry {
@@ -230,6 +233,11 @@ func genCase(t *rapid.T) Case {
 	switch c.Kind {
 	case kRPStatic, kRPRemote, kOPAccess, kOPHint:
 		c.Algs = rapid.SampledFrom(algLists).Draw(t, "algs")
+		if rapid.IntRange(0, 3).Draw(t, "algsfree") == 0 {
+			// free-form allow-list: any subset of the asymmetric algorithms, the symmetric ones, "none" and an unknown name -
+			// including lists that name nothing a public key can verify (the verifier must then believe nothing, not fall back)
+			c.Algs = rapid.SliceOfNDistinct(rapid.SampledFrom(allowListPool), 1, 4, rapid.ID[string]).Draw(t, "algsfreelist")
+		}
 	case kHintHTTP:
 		c.Algs = []string{rapid.SampledFrom(allAlgs).Draw(t, "hintalg")}
 	}
